@@ -157,6 +157,36 @@ def install_deep(functions) -> None:
                 _deep_codes.append(c)
 
 
+def module_functions(mod, exclude_classes: t.Iterable[type] = ()) -> list:
+    """Every function defined in a module (top level, methods, static/class methods, property accessors):
+    the set depends on the module's content only, so it is the same in every run and replay, and helpers added
+    by a change under test are included without the harness knowing their names."""
+    import types
+
+    out: list = []
+
+    def add(v):
+        v = getattr(v, "__func__", v)
+        if isinstance(v, property):
+            for g in (v.fget, v.fset, v.fdel):
+                if g is not None:
+                    add(g)
+            return
+        v = getattr(v, "__wrapped__", v) if not hasattr(v, "__code__") else v
+        if isinstance(getattr(v, "__code__", None), types.CodeType) and v.__code__.co_filename == getattr(mod, "__file__", None):
+            out.append(v)
+
+    for v in list(vars(mod).values()):
+        if isinstance(v, type):
+            if v.__module__ != mod.__name__ or v in tuple(exclude_classes):
+                continue
+            for w in list(vars(v).values()):
+                add(w)
+        else:
+            add(v)
+    return out
+
+
 def set_deep(on: bool) -> None:
     if _deep_on[0] == on:
         return
